@@ -272,6 +272,7 @@ func (e *Engine) registerIntrinsics() {
 	}
 	registerStdIntrinsics(in)
 	registerBigIntrinsics(in)
+	registerBigintCodecIntrinsics(in)
 	registerReflectIntrinsics(in)
 	registerHashIntrinsics(in)
 	registerBitsIntrinsics(in)
